@@ -19,7 +19,7 @@ RULE = (
     "samples (bulk, 1e-8, 1-1e-8); helper dispatchers are sampled from their signature; agreement to 1e-9 relative (+1e-12 abs). "
     "(bounds) the same drive and a sample of full runs are repeated in a process with NUMBA_BOUNDSCHECK=1: an IndexError out of compiled "
     "code, or out of .py_func with the real argument vectors, is an out-of-bounds read. (e2e) identical cards are executed in two "
-    "processes (JIT on / NUMBA_DISABLE_JIT=1) and all tensors compared with rtol 1e-9/1e-9/1e-6/1e-4 by order. "
+    "processes (JIT on / NUMBA_DISABLE_JIT=1) and all tensors compared with rtol 1e-9/1e-9/1e-6/1e-4 by order plus 5x the quadrature error the code reports for the entry. "
     "Distinct = dispatcher (diff/bounds) or configuration cell (e2e); non-trivial = compiled and interpreted values were both obtained and compared."
 )
 ASSUMPTIONS = ["numba's interpreter fallback (.py_func) is the reference semantics; callees of a kernel stay compiled when it is run through py_func",
@@ -268,7 +268,8 @@ def run_full(case):
                     sample=dict(obs=name, scheme=th["FNS"], PTO=th["PTODIS"], outcome="no out-of-bounds access reported"))  # fmt: skip
     tens = {run.key(o): np.asarray(v[0]).tolist() for i, r in enumerate(out[name]) for o, v in r.orders.items() if i == 0}
     tens2 = [{run.key(o): np.asarray(v[0]).tolist() for o, v in r.orders.items()} for r in out[name]]
-    return dict(status="held", tensors=tens2, compared=0)
+    errs2 = [{run.key(o): np.asarray(v[1]).tolist() for o, v in r.orders.items()} for r in out[name]]
+    return dict(status="held", tensors=tens2, errors=errs2, compared=0)
 
 
 def run_case(case):
@@ -322,7 +323,12 @@ def execute(cases, deadline, progress):
                 va, vb = np.array(ta[k_]), np.array(tb[k_])
                 o = int(k_[1])
                 sc = max(run.absmax(va), run.absmax(vb))
-                m, d = run.cmp(va, vb, sc, E2E_RTOL[o], 1e-300)
+                # last-bit differences steer scipy's adaptive quadrature differently: the two executions may differ by the
+                # integration error the code itself reports for the entry (measured: 8e-5 relative at NNLO, error estimate 1e-5..1e-4)
+                ea, eb = np.abs(np.array(a["errors"][ip][k_])), np.abs(np.array(b["errors"][ip][k_]))
+                tol = E2E_RTOL[o] * sc + 5.0 * (ea + eb) + 1e-300
+                dmat = np.abs(va - vb)
+                m, d = (float(np.max(dmat / tol)), float(np.max(dmat))) if np.all(np.isfinite(dmat)) else (float("inf"), float("nan"))
                 compared += va.size
                 nz = nz or sc > 0
                 if m > 1:
